@@ -49,6 +49,13 @@ func VerifHarness_C17_GenerateConverters() {
 		verifStubReturn("github.com/jmattheis/goverter/generator.Generate", files, nil)
 	}
 	tags, constraint, cwd := nondetAtom("buildTags"), nondetAtom("constraint"), nondetAtom("cwd")
+	// either of them may be configured empty, independently of the other
+	if nondetBool("buildTags.empty") {
+		tags = ""
+	}
+	if nondetBool("constraint.empty") {
+		constraint = ""
+	}
 	global := config.RawLines{Location: "cli", Lines: []string{nondetAtom("global")}}
 
 	err := GenerateConverters(&GenerateConfig{PackagePatterns: []string{"./..."}, WorkingDir: cwd, BuildTags: tags, OutputBuildConstraint: constraint, Global: global})
